@@ -11,6 +11,10 @@
   C08-E   every exception entry clears ITSTATE after saving it in the SPSR (SVC/SMC save the
           advanced state) - the C11-T equalities re-evaluated under this property;
           exception return restores ITSTATE only under is_excp_return (C12-M re-evaluated).
+  C08-R   the ITSTATE installed by an exception return is not advanced: the it_advance() call of
+          execute_instruction is suppressed by a per-instruction marker (sa/bookkeeping.py) that
+          CPSRWriteByInstr sets exactly when is_excp_return holds, that the driver resets before the
+          opcode executes, and that nothing else writes or reads.
 """
 import ast
 
@@ -134,6 +138,88 @@ def check_placement(run, repo, eff):
                           '%s advances the IT state itself (it would advance twice)' % ci.name)
 
 
+def _marker_guard(g):
+    """(flag name, required truthiness) of a guard `not registers.X` / `registers.X` else-arm, or None."""
+    t, pol = g[0], g[1]
+    if t[0] == 'not' and t[1][0] == 'sys':
+        return t[1][1], (not pol)
+    if t[0] == 'sys':
+        return t[1], pol
+    return None
+
+
+def check_return_not_advanced(run, repo):
+    """C08-R (see module docstring)."""
+    from .. import bookkeeping as bk
+    from ..effects import _SelfWalker
+    fi = repo.method('ArmV6', 'execute_instruction')
+    tr = _SelfWalker(repo, 'ArmV6', []).walk(fi, repo.cls('ArmV6'))
+    flags = bk.instruction_flags(repo)
+
+    def in_it(t):
+        return t[0] == 'pcall' and t[1] == 'in_it_block'
+    ok = True
+    markers = set()
+    advs = tr.of('ItAdvance')
+    for a in advs:
+        mine = []
+        for g in a.guards:
+            if in_it(g[0]) or g[0][0] == 'finally':
+                continue
+            mg = _marker_guard(g)
+            if mg is None or mg[0] not in flags:
+                raise AnalysisError('execute_instruction: it_advance() is guarded by `%s`, which is neither in_it_block() nor a '
+                                    'per-instruction marker reset before the opcode executes' % fmt(g[0]))
+            if mg[1] is not flags[mg[0]]:
+                ok = False
+                run.violation('C08-R', fi.relpath, fi.qualname, 'advance under the marker',
+                              'it_advance() runs when registers.%s differs from its reset value: it then runs only after exception '
+                              'returns instead of after every other instruction' % mg[0])
+                continue
+            mine.append(mg[0])
+        if not mine:
+            ok = False
+            run.violation('C08-R', fi.relpath, fi.qualname, 'restored ITSTATE advanced',
+                          'it_advance() runs after every instruction executed inside an IT block, also after an exception return '
+                          '(SUBS PC,LR / RFE / LDM^ / ERET as the last instruction of an IT block) that has just installed the '
+                          'ITSTATE of the interrupted code from the SPSR: the restored IT state is advanced once too often, so '
+                          '"returning restores it" fails for a return into the middle of an IT block')
+        markers.update(mine)
+    fw = repo.method('Registers', 'cpsr_write_by_instr')
+    params = [a.arg for a in fw.node.args.args if a.arg != 'self']
+    if len(params) < 3:
+        raise AnalysisError('cpsr_write_by_instr: expected (value, bytemask, is_excp_return)')
+    exc = params[2]
+    tw = _SelfWalker(repo, 'Registers', []).walk(fw, repo.cls('Registers'))
+    for m in sorted(markers):
+        sets = [e for e in tw.events if e.kind in ('ProcStore', 'SysWrite') and e.d['path'] == m]
+        good = [e for e in sets if e.d['value'][0] == 'const' and bool(e.d['value'][1]) is not flags[m] and
+                len(e.guards) == 1 and e.guards[0][0] == ('name', exc) and e.guards[0][1] is True]
+        if not good or len(good) != len(sets):
+            ok = False
+            run.violation('C08-R', fw.relpath, fw.qualname, 'marker ' + m,
+                          'CPSRWriteByInstr must set registers.%s exactly when %s holds (found %d store(s), %d of that form): '
+                          'otherwise the advance is suppressed for MSR/CPS too, or not suppressed for an exception return'
+                          % (m, exc, len(sets), len(good)))
+        readers, writers = bk.accesses(repo, m)
+        extra_w = writers - {('Registers', '__init__'), ('ArmV6', 'execute_instruction'), ('Registers', 'cpsr_write_by_instr')}
+        extra_r = readers - {('ArmV6', 'execute_instruction')}
+        for c, f in sorted(extra_w):
+            ok = False
+            run.violation('C08-R', 'armulator/armv6', '%s.%s' % (c, f), 'marker writer',
+                          '%s.%s writes registers.%s; only the cycle driver (reset) and CPSRWriteByInstr (exception return) may'
+                          % (c, f, m))
+        for c, f in sorted(extra_r):
+            ok = False
+            run.violation('C08-R', 'armulator/armv6', '%s.%s' % (c, f), 'marker reader',
+                          '%s.%s reads registers.%s: a per-instruction bookkeeping flag is not architectural state' % (c, f, m))
+    run.instance('C08-R', 'exception return does not advance the restored ITSTATE', obligations=3, ok=ok,
+                 sample={'function': fi.qualname, 'advance_calls': len(advs), 'markers': sorted(markers),
+                         'per_instruction_flags': sorted(flags)})
+    if not advs:
+        raise AnalysisError('execute_instruction: no it_advance() call found')
+
+
 def check_flag_suppression(run, repo):
     B = BDD()
     sp = spec.load('enc_t16.json')
@@ -188,6 +274,7 @@ def main(repo_path, tier, seed, replay=None):
     check_advance(run, repo)
     check_predicates(run, repo)
     check_placement(run, repo, eff)
+    check_return_not_advanced(run, repo)
     check_flag_suppression(run, repo)
     check_it_instruction(run, repo, eff, bind)
     for method in sorted(refmodel.ENTRY_MODELS):
